@@ -1096,7 +1096,7 @@ type fieldAccess struct {
 
 func isSyncType(t types.Type) bool {
 	s := types.TypeString(t, nil)
-	return strings.HasPrefix(s, "sync.") || strings.HasPrefix(s, "sync/atomic.") || strings.HasPrefix(s, "*sync.")
+	return strings.HasPrefix(s, "sync.") || strings.HasPrefix(s, "sync/atomic.") || strings.HasPrefix(s, "*sync.") || strings.HasPrefix(s, "*sync/atomic.")
 }
 
 func (ci *concInfo) modeLocks(ins ssa.Instruction) lockSet { return ci.must[ins] }
